@@ -151,16 +151,17 @@ def signature (p : Params) (fuel : Nat) (msg sk : List Nat) (randomized : Bool) 
   let r ← sign_loop p mat mu rhoprime s1h s2h t0h fuel 0
   .ok (r, tape)
 
-/-- `sign::<set>::verify(sig, m, pk) -> bool` -/
-def verify (p : Params) (sig m pk : List Nat) : Chk Bool := do
-  if sig.length ≠ p.sigBytes then .ok false else
+/-- the part of `verify` that does not depend on the message: decoding, the norm gate, tr = H(pk) and the
+    reconstruction of w1 from (sig, pk).  `none` = rejected before the hash comparison.
+    Returns (tr-hash of pk, c̃ from the signature, w1Encode(w1')). -/
+def verify_core (p : Params) (sig pk : List Nat) : Chk (Option (List Nat × List Nat × List Nat)) := do
+  if sig.length ≠ p.sigBytes then .ok none else
   let (rho, t1) ← unpack_pk p pk
   let (ok, c, z, h) ← unpack_sig p sig
-  if ¬ ok then .ok false else
+  if ¬ ok then .ok none else
   let r ← vec_chknorm z ((p.gamma1 : Int) - p.beta)
-  if 0 < r then .ok false else
+  if 0 < r then .ok none else
   let trh ← shake256 CRHBYTES p.trBytes pk p.pkBytes
-  let mu ← compute_mu trh p.trBytes m
   let cp ← poly_challenge p FUEL c
   let mat ← matrix_expand p FUEL rho
   let z ← vec_ntt z
@@ -174,8 +175,19 @@ def verify (p : Params) (sig m pk : List Nat) : Chk Bool := do
   let w1 ← vec_invntt_tomont w1
   let w1 ← vec_caddq w1
   let w1 ← k_use_hint p.lvl w1 h
-  let buf := k_pack_w1 p.lvl w1
-  let c2 ← compute_ctilde p mu buf
-  .ok (decide (c = c2))
+  .ok (some (trh, c, k_pack_w1 p.lvl w1))
+
+/-- `sign::<set>::verify(sig, m, pk) -> bool`.
+    (The Rust code computes μ = H(tr ‖ m) between the norm gate and the challenge expansion; μ does not feed
+    into the reconstruction of w1, so computing it afterwards gives the same value and the same
+    fault/no-fault outcome.) -/
+def verify (p : Params) (sig m pk : List Nat) : Chk Bool := do
+  let core ← verify_core p sig pk
+  match core with
+  | none => .ok false
+  | some (trh, c, buf) =>
+    let mu ← compute_mu trh p.trBytes m
+    let c2 ← compute_ctilde p mu buf
+    .ok (decide (c = c2))
 
 end DV
